@@ -19,7 +19,8 @@ pub struct HashCase {
 pub fn sysv_cycle(rng: &mut Rng, enc: Enc, nsyms: usize, cycle: usize, variant: u64) -> HashCase {
     let nsyms = nsyms.max(2);
     let names: Vec<Vec<u8>> = (0..nsyms).map(|i| if i == 0 { Vec::new() } else { format!("sym{i}").into_bytes() }).collect();
-    let tab = symtab::build(enc, &names, rng);
+    let mut tab = symtab::build(enc, &names, rng);
+    let arche = if rng.bool() { Some(symtab::apply_archetype(&mut tab, rng)) } else { None };
     let nbucket = 1 + rng.below(4) as u32;
     let mut nchain = nsyms as u64;
     let mut bucket = vec![0u64; nbucket as usize];
@@ -67,6 +68,10 @@ pub fn sysv_cycle(rng: &mut Rng, enc: Enc, nsyms: usize, cycle: usize, variant: 
     for c in &chain {
         enc.put(&mut hash, *c, 4);
     }
+    if let Some(a) = arche {
+        what.push_str(", ");
+        what.push_str(&a);
+    }
     let queries = vec![b"absent".to_vec(), b"".to_vec(), b"sym".to_vec(), format!("sym{}", nsyms + 5).into_bytes()];
     HashCase { hash, symtab: tab.symtab, strtab: tab.strtab, queries, what }
 }
@@ -77,7 +82,8 @@ pub fn gnu_nostop(rng: &mut Rng, enc: Enc, nsyms: usize, variant: u64) -> HashCa
     use crate::reference::hash::ref_gnu_hash;
     let nsyms = nsyms.max(2);
     let names: Vec<Vec<u8>> = (0..nsyms).map(|i| if i == 0 { Vec::new() } else { format!("gsym{i}").into_bytes() }).collect();
-    let tab = symtab::build(enc, &names, rng);
+    let mut tab = symtab::build(enc, &names, rng);
+    let arche = if rng.bool() { Some(symtab::apply_archetype(&mut tab, rng)) } else { None };
     let query = b"absent_name".to_vec();
     let h = ref_gnu_hash(&query);
     let nbucket = 1 + rng.below(3);
@@ -108,6 +114,10 @@ pub fn gnu_nostop(rng: &mut Rng, enc: Enc, nsyms: usize, variant: u64) -> HashCa
         // same hash as the query, stop bit clear
         let w = if variant % 4 == 3 { rng.next_u64() & 0xffff_fffe } else { (h & !1) as u64 };
         enc.put(&mut hash, w, 4);
+    }
+    if let Some(a) = arche {
+        what.push_str(", ");
+        what.push_str(&a);
     }
     HashCase { hash, symtab: tab.symtab, strtab: tab.strtab, queries: vec![query, b"".to_vec(), b"gsym1".to_vec()], what }
 }
